@@ -11,29 +11,90 @@ from ..idioms import cname, where
 JW = "bluesky.callbacks.json_writer"
 
 
+def _file_var(with_stmt):
+    v = with_stmt.items[0].optional_vars
+    return v.id if isinstance(v, ast.Name) else None
+
+
+def _write_parts(arg):
+    """flatten `a + b + c`; -> list of ('W', text) / ('REC', expr text) / ('?', text)"""
+    if isinstance(arg, ast.BinOp) and isinstance(arg.op, ast.Add):
+        return _write_parts(arg.left) + _write_parts(arg.right)
+    if isinstance(arg, ast.Constant) and isinstance(arg.value, str):
+        return [("W", arg.value)]
+    if isinstance(arg, ast.Call) and A.call_name(arg) == "json.dumps" and arg.args:
+        return [("REC", A.norm(arg.args[0]))]
+    return [("?", A.norm(arg))]
+
+
 def tokens(with_stmt):
-    """sequence of ('W', const) / ('REC',) writes inside a `with open(...)` block"""
+    """sequence of ('W', const) / ('REC', record expr) writes inside a `with open(...) as f` block; adjacent constants are merged"""
+    fv = _file_var(with_stmt)
     out = []
     for s in with_stmt.body:
         if isinstance(s, ast.Expr) and isinstance(s.value, ast.Call):
             cn = A.call_name(s.value)
-            if cn == "file.write" and len(s.value.args) == 1 and isinstance(s.value.args[0], ast.Constant):
-                out.append(("W", s.value.args[0].value))
-            elif cn == "json.dump":
-                rec = A.norm(s.value.args[0]) if s.value.args else "?"
-                out.append(("REC", rec))
+            if fv and cn == f"{fv}.write" and len(s.value.args) == 1:
+                out.extend(_write_parts(s.value.args[0]))
+            elif cn == "json.dump" and len(s.value.args) >= 2 and A.norm(s.value.args[1]) == fv:
+                out.append(("REC", A.norm(s.value.args[0])))
+            elif fv and cn == f"{fv}.flush":
+                continue
             else:
                 out.append(("?", A.norm(s)))
         else:
             out.append(("?", A.norm(s)))
-    return out
+    merged = []
+    for t in out:
+        if t[0] == "W" and merged and merged[-1][0] == "W":
+            merged[-1] = ("W", merged[-1][1] + t[1])
+        else:
+            merged.append(t)
+    return merged
+
+
+def open_call(with_stmt):
+    c = with_stmt.items[0].context_expr
+    if isinstance(c, ast.Call):
+        cn = A.call_name(c) or ""
+        if cn == "open" and c.args:
+            mode = c.args[1] if len(c.args) >= 2 else A.kw(c, "mode")
+            return c.args[0], mode
+        if cn.endswith(".open") or (isinstance(c.func, ast.Attribute) and c.func.attr == "open"):
+            mode = c.args[0] if c.args else A.kw(c, "mode")
+            return c.func.value, mode
+    return None, None
 
 
 def open_mode(with_stmt):
-    c = with_stmt.items[0].context_expr
-    if isinstance(c, ast.Call) and A.call_name(c) == "open" and len(c.args) >= 2:
-        return A.norm(c.args[1]), A.norm(c.args[0])
-    return None, None
+    path, mode = open_call(with_stmt)
+    return (A.norm(mode) if mode is not None else "'r'", A.norm(path)) if path is not None else (None, None)
+
+
+def possible_modes(func, mode_expr, path_txt, depth=0):
+    """-> list of (mode string or None when unknown, condition) where condition is 'always', 'exists', 'missing' or 'unknown'."""
+    if mode_expr is None:
+        return [("r", "always")]
+    if isinstance(mode_expr, ast.Constant) and isinstance(mode_expr.value, str):
+        return [(mode_expr.value, "always")]
+    if isinstance(mode_expr, ast.IfExp):
+        t = mode_expr.test
+        neg = False
+        while isinstance(t, ast.UnaryOp) and isinstance(t.op, ast.Not):
+            neg, t = not neg, t.operand
+        is_exists = isinstance(t, ast.Call) and ((isinstance(t.func, ast.Attribute) and t.func.attr in ("exists", "is_file") and A.norm(t.func.value).strip("()") == path_txt.strip("()"))
+                                                 or (A.call_name(t) in ("os.path.exists", "os.path.isfile") and t.args and A.norm(t.args[0]).strip("()") == path_txt.strip("()")))
+        out = []
+        for branch, when_true in ((mode_expr.body, True), (mode_expr.orelse, False)):
+            cond = ("exists" if (when_true != neg) else "missing") if is_exists else "unknown"
+            for m, c in possible_modes(func, branch, path_txt, depth + 1):
+                out.append((m, cond if c == "always" else "unknown"))
+        return out
+    if isinstance(mode_expr, ast.Name) and depth < 3:
+        defs = q.local_defs(func.node, mode_expr.id)
+        if len(defs) == 1 and isinstance(defs[0], ast.Assign):
+            return possible_modes(func, defs[0].value, path_txt, depth + 1)
+    return [(None, "unknown")]
 
 
 def run(ctx):
@@ -88,15 +149,58 @@ def run(ctx):
     ctx.ob("C34.D1-array-grammar", cname(jw, None, "composition: '[' REC ',' (REC ',')* REC ']' parses as a JSON array of the records in order"), True,
            "separator after every record except the last; brackets opened once and closed once")
     jl = repo.func(JW, "JSONLinesWriter.__call__")
-    ws = [s for s in jl.node.body if isinstance(s, ast.With)]
-    ok = len(ws) == 1 and [(t[0],) if t[0] == "REC" else t for t in tokens(ws[0])] == [("REC",), ("W", "\n")]
-    ctx.ob("C34.D1-lines-grammar", cname(jl, None, "one record and one newline per document"), ok, "" if ok else "line format changed", nontrivial=True, where=where(jl, jl.node))
-    modes = [s for s in jl.node.body if isinstance(s, ast.Assign) and A.norm(s.targets[0]) == "mode"]
-    ok = len(modes) == 1 and A.norm(modes[0].value) == "'a' if (self.dirname / self.filename).exists() else 'w'" and bool(ws) and open_mode(ws[0])[0] == "mode"
-    ctx.ob("C34.D2-open-modes", cname(jl, None, "append when the file exists"), ok, "" if ok else "an existing file is truncated", nontrivial=True, where=where(jl, jl.node))
-    ifs = [s for s in jl.node.body if isinstance(s, ast.If) and A.norm(s.test) == "not self.filename"]
-    ok = len(ifs) == 1 and ws and jl.node.body.index(ifs[0]) < jl.node.body.index(ws[0])
-    ctx.ob("C34.D2-open-modes", cname(jl, None, "the filename is chosen once, before writing"), ok, "" if ok else "filename changes between documents", where=where(jl, jl.node))
+    withs = [s for s in A.walk_stmts(jl.node.body) if isinstance(s, ast.With) and open_call(s)[0] is not None]
+    writes = []
+    for w in withs:
+        path, mode = open_call(w)
+        pm = possible_modes(jl, mode, A.norm(path))
+        if all(m is not None and set(m) <= set("rbt") for m, _ in pm):
+            continue  # read-only open: not part of the output grammar
+        writes.append((w, A.norm(path), pm))
+    ok = len(writes) == 1
+    ctx.ob("C34.D1-lines-grammar", cname(jl, None, "exactly one open-for-writing per document"), ok, "" if ok else f"{len(writes)} write-opens", where=where(jl, jl.node))
+    for w, path_txt, pm in writes:
+        toks = tokens(w)
+        ok = [t[0] for t in toks] == ["REC", "W"] and toks[1][1] == "\n"
+        ctx.ob("C34.D1-lines-grammar", cname(jl, None, "one record and one newline per document"), ok,
+               "" if ok else f"writes {[t[1] if t[0] != 'REC' else 'REC' for t in toks]}: a line is no longer exactly one record followed by a newline", nontrivial=True, where=where(jl, w))
+        recs = [t[1] for t in toks if t[0] == "REC"]
+        ok = recs == ["{'name': name, 'doc': doc}"]
+        ctx.ob("C34.D1-lines-grammar", cname(jl, None, "the record is {name, doc}"), ok, "" if ok else f"records {recs}", where=where(jl, w))
+        bad = [(m, c) for m, c in pm if m is None or ("w" in m and c != "missing") or ("x" in m and c != "missing") or ("+" in m and "a" not in m and c != "missing")]
+        ok = not bad and any("a" in (m or "") or c == "missing" for m, c in pm)
+        ctx.ob("C34.D2-open-modes", cname(jl, None, "a truncating mode is chosen only when the file does not exist"), ok,
+               "" if ok else f"mode / condition pairs {pm}: an existing file can be truncated (earlier lines lost)", nontrivial=True, where=where(jl, w))
+    # file-API preconditions on the way to the append: a pre-existing file may be empty
+    for c in A.calls_in(jl.node):
+        if isinstance(c.func, ast.Attribute) and c.func.attr == "seek" and len(c.args) == 2:
+            off = c.args[0]
+            negative = isinstance(off, ast.UnaryOp) and isinstance(off.op, ast.USub) and isinstance(off.operand, ast.Constant)
+            from_end = A.norm(c.args[1]) in ("2", "os.SEEK_END", "io.SEEK_END", "SEEK_END")
+            if negative and from_end:
+                pm_ = A.parents(jl.node)
+                n, guarded = c, False
+                while n in pm_:
+                    n = pm_[n]
+                    if isinstance(n, ast.If) and any(k in A.norm(n.test) for k in ("st_size", "getsize", ".tell()", "len(")):
+                        guarded = True
+                ctx.ob("C34.D2-file-api-preconditions", cname(jl, c), guarded,
+                       "" if guarded else "seek to a negative offset from the end raises OSError on an empty pre-existing file: the document is never appended",
+                       nontrivial=True, where=where(jl, c))
+    stores = [s for s in A.walk_stmts(jl.node.body) if any(A.chain(t) == "self.filename" for t in A.targets_of(s))]
+    pmj = A.parents(jl.node)
+    def under_unset_guard(st):
+        n = st
+        while n in pmj:
+            n = pmj[n]
+            if isinstance(n, ast.If) and A.norm(n.test) in ("not self.filename", "self.filename is None"):
+                return True
+        return False
+    ok = bool(stores) and all(under_unset_guard(st) for st in stores)
+    ctx.ob("C34.D2-open-modes", cname(jl, None, "the filename is chosen once (only while unset)"), ok, "" if ok else "filename changes between documents", where=where(jl, jl.node))
+    if writes and stores:
+        ok = max(st.lineno for st in stores) < writes[0][0].lineno
+        ctx.ob("C34.D2-open-modes", cname(jl, None, "the filename is chosen before writing"), ok, "" if ok else "the file is opened before its name is fixed", where=where(jl, jl.node))
     st = branches.get("name == 'start'")
     ok = any(isinstance(s, ast.Assign) and A.norm(s.targets[0]) == "self.filename" and A.norm(s.value).startswith("self.filename or ") for s in top[0].body)
     ctx.ob("C34.D2-open-modes", cname(jw, None, "JSONWriter keeps a given filename"), ok, "" if ok else "filename overwritten", where=where(jw, jw.node))
@@ -106,7 +210,7 @@ CLAIM = {
     "text": "Decides the writers' token grammar: for the document sequence start other* stop JSONWriter emits `[ REC (, REC)* ]` with one {name, doc} "
             "record per document, only the start branch truncates and all branches use one path; JSONLinesWriter writes one record plus newline "
             "per document and appends when the file exists. Serialisability of arbitrary documents is not decided.",
-    "technique": "token-sequence grammar check per branch; open-mode table",
+    "technique": "token-sequence grammar check per branch; evaluation of the open-mode expression under exists / missing; file-API precondition rule (seek from the end needs a size guard)",
 }
 
 J = "callbacks/json_writer.py"
@@ -119,4 +223,12 @@ MUTANTS = [
     ("separator before instead of after in the else branch", [(J, "                json.dump({\"name\": name, \"doc\": doc}, file)\n                file.write(\",\\n\")\n\n\nclass JSONLinesWriter", "                file.write(\",\\n\")\n                json.dump({\"name\": name, \"doc\": doc}, file)\n\n\nclass JSONLinesWriter")], "C34.D1"),
     ("record drops the name", [(J, "            with open(self.dirname / self.filename, \"a\") as file:\n                json.dump({\"name\": name, \"doc\": doc}, file)\n                file.write(\"\\n]\")", "            with open(self.dirname / self.filename, \"a\") as file:\n                json.dump({\"doc\": doc}, file)\n                file.write(\"\\n]\")")], "C34.D1"),
 ]
-BENIGN = []
+MUTANTS += [
+    ("lines writer probes the last byte without a size guard (seed C34-a)", [(J, "        with open(self.dirname / self.filename, mode) as file:\n            json.dump", "        if mode == \"a\":\n            with open(self.dirname / self.filename, \"rb\") as probe:\n                probe.seek(-1, 2)\n                probe.read(1)\n        with open(self.dirname / self.filename, mode) as file:\n            json.dump")], "C34.D2-file-api"),
+    ("lines writer truncates when the file exists", [(J, "        mode = \"a\" if (self.dirname / self.filename).exists() else \"w\"", "        mode = \"w\" if (self.dirname / self.filename).exists() else \"a\"")], "C34.D2"),
+]
+BENIGN = [
+    ("lines writer always appends ('a' creates the file)", [(J, "        mode = \"a\" if (self.dirname / self.filename).exists() else \"w\"", "        mode = \"a\"")]),
+    ("lines writer writes dumps + newline in one call", [(J, "            json.dump({\"name\": name, \"doc\": doc}, file)\n            file.write(\"\\n\")\n", "            file.write(json.dumps({\"name\": name, \"doc\": doc}) + \"\\n\")\n")]),
+    ("lines writer uses a different handle name and a guarded probe", [(J, "        with open(self.dirname / self.filename, mode) as file:\n            json.dump({\"name\": name, \"doc\": doc}, file)\n            file.write(\"\\n\")", "        target = self.dirname / self.filename\n        if mode == \"a\" and target.stat().st_size > 0:\n            with open(target, \"rb\") as probe:\n                probe.seek(-1, 2)\n        with open(self.dirname / self.filename, mode) as out:\n            json.dump({\"name\": name, \"doc\": doc}, out)\n            out.write(\"\\n\")")]),
+]
